@@ -4,15 +4,17 @@ from ..common import d42  # noqa: F401
 from d42 import validate
 from d42.validation import Formatter, ValidationException, validate_or_fail
 
-MODULE = "D42.Props.C08Format"
+MODULE = "D42.Props.C08All"
 THEOREMS = ["validate_ok", "format_total", "validateOrFail_spec", "validateAll_ok", "validateElems_ok", "windows_ok",
-            "validateFields_ok", "anyOk_ok", "validateScalarX_ok", "floatValueOkX_ok", "formatX_ok_of_renderable", "format_shown"]
+            "validateFields_ok", "anyOk_ok", "validateScalarX_ok", "floatValueOkX_ok", "formatX_ok_of_renderable", "format_shown",
+            "validateScalar_eq_extracted", "listPrelude_eq_extracted", "dictPrelude_eq_extracted", "anyPrelude_eq_extracted", "validateP_list_prelude", "validateP_dict_prelude"]
 FILES = ["D42/Model/Data.lean", "D42/Model/Float.lean", "D42/Model/Validate.lean", "D42/Model/Format.lean", "D42/Props/C08.lean",
-         "D42/Props/C03.lean", "D42/Props/C03Facts.lean", "D42/Props/C08Format.lean"]
+         "D42/Props/C03.lean", "D42/Props/C03Facts.lean", "D42/Props/C08Format.lean",
+         "D42/Model/CheckProg.lean", "D42/Gen/ValidatorProg.lean", "D42/Props/ValidatorProg.lean", "D42/Props/C08All.lean"]
 
 EVIDENCE = dict(
     level="proof",
-    checker_cmd="lake build D42.Props.C08 d42model && lake env lean <#print axioms audit>",
+    checker_cmd="lake build D42.Props.C08All d42model && lake env lean <#print axioms audit>",
     trusted=["Lean 4.33.0 kernel", "axioms ⊆ {propext, Classical.choice, Quot.sound}",
              "hand-written model D42/Model/Validate.lean tied to d42/validation/_validator.py by the "
              "correspondence run on this run's cases (error lists compared as multisets)",
@@ -161,6 +163,11 @@ def format_correspondence(ctx, cases):
 
 
 def run(ctx):
+    from .. import extract_validator
+    ok, msg = extract_validator.run()
+    if not ok:
+        ctx.breakage("translation", "validator extraction failed (d42/validation/_validator.py no longer consists of the "
+                     "recognised idioms): " + msg)
     runner.prove(ctx, MODULE, THEOREMS, FILES)
     n = ctx.n(60, 400)
     cases = []
